@@ -545,6 +545,56 @@ theorem C17_mat_norm_fro (M : Matrix (Fin m) (Fin n) ℝ) :
 
 end matnorm
 
+section svd
+variable {E F : Type} [NormedAddCommGroup E] [InnerProductSpace ℝ E] [NormedAddCommGroup F] [InnerProductSpace ℝ F]
+
+/-- **`MatrixOperator.norm(2)`, `(-2)`, `('nuc')` through the singular values.**  Contract: the singular values handed to
+    `svNorm` are `sᵢ = √lamᵢ` for the eigenvalues `lam` of the Gram operator `AᴴA` in an orthonormal eigenbasis (`n` of them,
+    `n ≥ 1`: the case of a matrix with at least as many rows as columns; for a wide matrix apply it to `Aᴴ`, which has the
+    same non-zero singular values).  Then `ord = 2` returns the induced 2-norm `‖A‖`, `ord = -2` the number
+    `inf ‖Ax‖/‖x‖` (a lower bound for all `x`, attained at a unit eigenvector), `ord = 'nuc'` the sum `Σ √lamᵢ`. -/
+theorem C17_mat_norm_sv {n : Nat} (hn : 0 < n) (B : E →L[ℝ] E) (A : E →L[ℝ] F) (hG : IsGram B A)
+    (b : OrthonormalBasis (Fin n) ℝ E) (lam : Fin n → ℝ) (hB : IsDiagIn B b lam) :
+    svNorm (.int 2) (List.ofFn fun i => Real.sqrt (lam i)) = some ‖A‖ ∧
+    (∃ c, svNorm (.int (-2)) (List.ofFn fun i => Real.sqrt (lam i)) = some c ∧
+      (∀ x : E, c * ‖x‖ ≤ ‖A x‖) ∧ ∃ x : E, ‖x‖ = 1 ∧ ‖A x‖ = c) ∧
+    svNorm .nuc (List.ofFn fun i => Real.sqrt (lam i)) = some (∑ i, Real.sqrt (lam i)) := by
+  have hne : (List.ofFn fun i => Real.sqrt (lam i)) ≠ [] := by
+    intro h
+    have := congrArg List.length h
+    simp at this; omega
+  have hnn : ∀ i, 0 ≤ lam i := fun i => hG.eigen_nonneg hB i
+  refine ⟨?_, ?_, ?_⟩
+  · obtain ⟨c, hc⟩ := lmax_isSome hne
+    obtain ⟨hmem, hle⟩ := lmax_spec hc
+    obtain ⟨imax, himax⟩ := (List.mem_ofFn' _ _).1 hmem
+    simp only at himax
+    have hmax : ∀ i, lam i ≤ lam imax := by
+      intro i
+      have h1 : Real.sqrt (lam i) ≤ Real.sqrt (lam imax) := by
+        rw [himax]; exact hle _ (by simp [List.mem_ofFn])
+      exact (Real.sqrt_le_sqrt_iff (hnn imax)).1 h1
+    show lmax _ = _
+    rw [hc, hG.opNorm_eq_sqrt hB imax hmax, himax]
+  · obtain ⟨c, hc⟩ := lmin_isSome hne
+    obtain ⟨hmem, hle⟩ := lmin_spec hc
+    obtain ⟨imin, himin⟩ := (List.mem_ofFn' _ _).1 hmem
+    simp only at himin
+    have hmin : ∀ i, lam imin ≤ lam i := by
+      intro i
+      have h1 : Real.sqrt (lam imin) ≤ Real.sqrt (lam i) := by
+        rw [himin]; exact hle _ (by simp [List.mem_ofFn])
+      exact (Real.sqrt_le_sqrt_iff (hnn i)).1 h1
+    obtain ⟨h1, h2⟩ := hG.sigma_min hB imin hmin
+    refine ⟨c, hc, ?_, b imin, b.orthonormal.1 imin, ?_⟩
+    · intro x; rw [← himin]; exact h1 x
+    · rw [h2, b.orthonormal.1 imin, mul_one, himin]
+  · show some (lsum _) = _
+    rw [lsum_ofFn]
+
+end svd
+
+
 /-! ### parameter estimators -/
 
 /-- `PDHG.estimate_parameters` with a safety factor: `τσc² = 1/factor` — hence `< 1` for every
@@ -710,6 +760,9 @@ example : (1 : ℝ) / 1.01 < 1 := by norm_num
 example : let p := pdhgEst (2 : ℝ) 4 (some 1.01); p.1 * p.2 * 2 ^ 2 < 1 :=
   (C17_pdhg_est 2 4 1.01 (by norm_num) (by norm_num) (by norm_num)).2.1
 example : (padmmEst (3 : ℝ) 1 (some 1.01)).1 = 1.01 * (3 * 3) := rfl
+-- `svNorm` on the singular values (2, 1): nuclear norm 3
+example : svNorm .nuc ([2, 1] : List ℝ) = some 3 := by
+  simp [svNorm, lsum]; norm_num
 -- closed forms on diag(1,-3,2)
 example : diagNorm .nuc (List.ofFn ![(1 : ℝ), -3, 2]) = .ok 6 := by
   rw [diagNorm_nuc]; simp [Fin.sum_univ_succ]; norm_num
